@@ -116,7 +116,7 @@ Doc(ev) ==
       M == ev.cls # "jsonraw"     \* a document holding raw JSON text has no meaningful MessagePack form
   IN
   \* C02 ---------------------------------------------------------------
-  /\ Focus # "C02" \/ (
+  /\ IF Focus # "C02" THEN TRUE ELSE (
      /\ Require(J => (pj.code = "Ok" /\ pj.read = Len(json)), "compact JSON is not accepted by the strict RFC 8259 parser")
      /\ Require(J => SameJson(pj.v, ev.v), "compact JSON does not denote the document")
      /\ Require(J => StripWs(ev.pretty, 1, FALSE) = StripWs(json, 1, FALSE), "pretty and compact differ by more than insignificant whitespace")
@@ -130,7 +130,7 @@ Doc(ev) ==
                   ev.ferr[j].err <= (IF ev.ferr[j].k = 4 THEN 1000000 ELSE 1000),
                 "a floating-point value is printed outside its bound (1e-6 for float, 1e-9 for double, relative to max(1,|x|))"))
   \* C08 ---------------------------------------------------------------
-  /\ Focus # "C08" \/ (
+  /\ IF Focus # "C08" THEN TRUE ELSE (
      LET dm == DecodeMsgPack(ev.mp, 255, TrueV) IN
      /\ Require(M => (dm.code = "Ok" /\ dm.read = Len(ev.mp)), "MessagePack output is not exactly one well-formed object")
      /\ Require(M => SameMp(dm.v, ev.v), "MessagePack output does not denote the document")
@@ -139,7 +139,7 @@ Doc(ev) ==
      /\ Require(ev.mpcount = Len(ev.mp) /\ ev.mpmeasure = Len(ev.mp), "serializeMsgPack count / measureMsgPack differ")
      /\ Require(BufferLaw(ev.mpcaps, Len(ev.mp), FALSE), "MessagePack buffer law violated"))
   \* C07 ---------------------------------------------------------------
-  /\ Focus # "C07" \/ (
+  /\ IF Focus # "C07" THEN TRUE ELSE (
      /\ Require(M => ev.rtmp = ev.mp, "MessagePack round trip is not byte-identical")
      /\ Require(ev.rtjsonok, "JSON round trip does not give an equivalent document")
      /\ Require(ev.convok, "JSON -> document -> MessagePack -> document differs from JSON -> document"))
@@ -152,11 +152,11 @@ Bulk(ev) ==
                 [] ev.kind = "o" -> (IF ev.n < 16 THEN <<128 + ev.n>> ELSE IF ev.n < 65536 THEN <<222>> \o U16(ev.n) ELSE <<223>> \o U32(ev.n))
   IN
   /\ Require(ev.built, "a document within the limits could not be built")
-  /\ Focus # "C08" \/ (Require(ev.mphead = head, "wrong MessagePack header at a 16-bit boundary")
-                        /\ Require(ev.mppayload, "MessagePack payload differs"))
-  /\ Focus # "C02" \/ Require(ev.jsonok, "JSON text of a large document differs")
-  /\ Focus = "C07" \/ Require(ev.counts, "counts / measure differ for a large document")
-  /\ Focus # "C07" \/ Require(ev.rtmp, "MessagePack round trip of a large document is not byte-identical")
+  /\ IF Focus # "C08" THEN TRUE ELSE (Require(ev.mphead = head, "wrong MessagePack header at a 16-bit boundary")
+                                      /\ Require(ev.mppayload, "MessagePack payload differs"))
+  /\ IF Focus # "C02" THEN TRUE ELSE Require(ev.jsonok, "JSON text of a large document differs")
+  /\ IF Focus = "C07" THEN TRUE ELSE Require(ev.counts, "counts / measure differ for a large document")
+  /\ IF Focus # "C07" THEN TRUE ELSE Require(ev.rtmp, "MessagePack round trip of a large document is not byte-identical")
 
 Init == l = 1
 Next == l <= Len(TraceLog) /\ l' = l + 1 /\ (IF TraceLog[l].cls = "bulk" THEN Bulk(TraceLog[l]) ELSE Doc(TraceLog[l]))
